@@ -33,12 +33,12 @@ def jobs(tier):
                  unwind=9, encodes=["_dbus_validate_path", "_dbus_validate_interface", "_dbus_validate_member",
                                     "_dbus_validate_bus_name", "_dbus_string_validate_utf8"],
                  bounds="string length 0..6, start 0..len, any int len extending past the end", shape="out-of-range (start,len)"))
-    for n, tiers in ((6, ("quick", "thorough")), (8, ("thorough",))):
+    for n, pre, tiers in ((5, 1, ("quick", "thorough")), (7, 0, ("quick", "thorough")), (8, 0, ("thorough",)), (9, 0, ("thorough",))):
         J.append(Job(name=f"c.signature.N{n}", group="C16.c", harness="harness/C16_signature.c",
-                     defines={"N": n, "PRE": 1}, real=[V, S, "dbus/dbus-signature.c"], env=COMMON_ENV + ["list_lifo.c"],
-                     unwind=n + 4, tiers=tiers, timeout=900,
+                     defines={"N": n, "PRE": pre}, real=[V, S, "dbus/dbus-signature.c"], env=COMMON_ENV + ["list_lifo.c"],
+                     unwind=n + 5, tiers=tiers, timeout=900 if n < 8 else 3600, mem_gb=20,
                      encodes=["_dbus_validate_signature_with_reason", "dbus_type_is_valid", "dbus_type_is_basic"],
                      stubs=["DBusList append/pop_last/clear = array LIFO (R6)"],
-                     bounds=f"all byte strings of length 0..{n} (full alphabet), offsets 0..1; unwind {n+3}",
+                     bounds=f"all byte strings of length 0..{n} (full alphabet), offsets 0..{pre}; unwind {n+5}",
                      shape=f"signature, N={n}", cost=n * 4))
     return J
